@@ -171,3 +171,78 @@ Theorem C16_gen_counts :
   end.
 Proof. exact gen_dispatch_counts. Qed.
 Print Assumptions C16_gen_counts.
+
+(* ==== GenAgree (measures): what matrix/measure.py, stripe/measure.py, cubepart.py SAY NOW ==== *)
+(* Gen/MeasureSrc.v, Gen/StripeMeasureSrc.v, Gen/PartMeasureSrc.v are REWRITTEN FROM THE SOURCE on every
+   check by harness/translate/measures.py (an `ast` whitelist, fail-closed): one [option mexp] per
+   (class, member) -- per block for a `blocks` member -- read through the wiring of the collection class.
+   The theorems below say that what the source SAYS NOW ([meval] / the signed-square reading [meval_sq] of
+   the translated term, Base/MeasureExp.v), for ALL input blocks, sizes and subtotal lists, IS the
+   definition of Model.CubeCounts the theorems above are about -- tagged shape and every in-range cell.
+   [None] on the left = the translator could not read the member (then only the correspondence ties it).
+   A change of meaning in the source breaks these obligations (Proofs/GenAgreeIndex.v fails). *)
+From Coq Require String.
+From CC Require Base.MeasureExp Model.Subtotals Model.Proportions Gen.MeasureSrc Gen.StripeMeasureSrc Gen.PartMeasureSrc Gen.Tables
+     Proofs.GenAgreeMeasTac Proofs.GenAgreeIndex.
+Section GenAgreeMeasures_C16.   (* scopes and imports below end with the section *)
+Import Coq.Strings.String CC.Base.MeasureExp CC.Model.Subtotals CC.Model.Proportions CC.Gen.MeasureSrc CC.Gen.StripeMeasureSrc
+       CC.Gen.PartMeasureSrc CC.Gen.Tables CC.Proofs.GenAgreeMeasTac CC.Proofs.GenAgreeIndex.
+Import Coq.Lists.List.ListNotations CC.Base.XQ.
+Local Close Scope Q_scope.
+Local Open Scope string_scope.
+Local Open Scope nat_scope.
+
+Theorem C16_gen_column_index_formula :
+  match src_ColumnIndex__column_index with
+  | Some e => forall nr nc rsubs csubs rd cd blk cubem cubeflag flag (cmr : bool) bl,
+      holds_mat (menv_std nr nc rsubs csubs rd cd blk cubem (index_cube cmr bl) cubeflag flag) e DR DC
+        (index_model blk cmr bl)
+  | None => True
+  end.
+Proof. exact gen_ColumnIndex__column_index. Qed.
+Print Assumptions C16_gen_column_index_formula.
+
+Theorem C16_gen_column_index_blocks :
+  (match src_ColumnIndex_blocks_00 with
+  | Some e => forall nr nc rsubs csubs rd cd blk cubem cubeflag flag (cmr : bool) bl,
+      holds_mat (menv_std nr nc rsubs csubs rd cd blk cubem (index_cube cmr bl) cubeflag flag) e DR DC
+        (mnth (b_base (nan_blocks (tab2 nr nc (index_model blk cmr bl)) nr nc rsubs csubs)))
+  | None => True
+  end) /\
+  (match src_ColumnIndex_blocks_01 with
+  | Some e => forall nr nc rsubs csubs rd cd blk cubem cubeflag flag (cmr : bool) bl,
+      holds_mat (menv_std nr nc rsubs csubs rd cd blk cubem (index_cube cmr bl) cubeflag flag) e DR DCS
+        (mnth (b_cols (nan_blocks (tab2 nr nc (index_model blk cmr bl)) nr nc rsubs csubs)))
+  | None => True
+  end) /\
+  (match src_ColumnIndex_blocks_10 with
+  | Some e => forall nr nc rsubs csubs rd cd blk cubem cubeflag flag (cmr : bool) bl,
+      holds_mat (menv_std nr nc rsubs csubs rd cd blk cubem (index_cube cmr bl) cubeflag flag) e DRS DC
+        (mnth (b_rows (nan_blocks (tab2 nr nc (index_model blk cmr bl)) nr nc rsubs csubs)))
+  | None => True
+  end) /\
+  (match src_ColumnIndex_blocks_11 with
+  | Some e => forall nr nc rsubs csubs rd cd blk cubem cubeflag flag (cmr : bool) bl,
+      holds_mat (menv_std nr nc rsubs csubs rd cd blk cubem (index_cube cmr bl) cubeflag flag) e DRS DCS
+        (mnth (b_inter (nan_blocks (tab2 nr nc (index_model blk cmr bl)) nr nc rsubs csubs)))
+  | None => True
+  end).
+Proof. exact (conj gen_ColumnIndex_blocks_00 (conj gen_ColumnIndex_blocks_01 (conj gen_ColumnIndex_blocks_10 gen_ColumnIndex_blocks_11))). Qed.
+Print Assumptions C16_gen_column_index_blocks.
+
+(* non-vacuity: count 1 of column base 2 against a baseline of 1/4: the translated index is 200 *)
+Example C16_gen_example :
+  match src_ColumnIndex__column_index with
+  | Some e =>
+      let blk := fun (m : string) (_ _ : nat) =>
+        if String.eqb m "weighted_counts" then [[Fin 1%Q]] else [[Fin 2%Q]] in
+      match meval (menv_std 1 1 [] [] false false blk (fun _ _ => []) (index_cube false (fun _ _ => Fin (Qmake 1 4)))
+                            (fun _ _ => false) (fun _ => false)) e with
+      | VMat DR DC f => f 0 0 =x= Fin 200%Q
+      | _ => False
+      end
+  | None => True
+  end.
+Proof. vm_compute. first [exact I | reflexivity]. Qed.
+
+End GenAgreeMeasures_C16.
